@@ -390,8 +390,95 @@ def _beliefs(R, f_escape: Escape):
         return (ok, 'ast.parse(e) is dominated by compile(e) inside try/except SyntaxError: the text already compiled')
 
     def fact_format_safe(site: Site):
-        # R2 (brace-safe template) + C01.R3 (one field per named match = one term)
-        return (True, 'receiver is brace-escaped (C13.R2) and has one {} per term (C01.R3 skip-predicate agreement)')
+        """`T.format(*[... for t in X])`: ValueError / KeyError need a brace-safe receiver (C13.R2 decides that); IndexError
+        needs as many positional arguments as `T` has `{}` fields.  The fields are counted by one tokenisation of the whole
+        statement, the arguments by another (the two sides of the first `=`): the counts are related only by a guard."""
+        if site.exc != 'IndexError':
+            return (True, 'receiver is brace-escaped: no stray `{`/`}` and no named or numbered field (decided by C13.R2)')
+        f = Fn(R, site.func)
+        stmts = [n for n in f.cfg.nodes if n.ast is not None and n.kind == 'stmt' and n.ast.lineno == site.line
+                 and any(method_call(x, 'format') and not isinstance(x.func.value, ast.Constant) for x in ast.walk(n.ast))]
+        if not stmts:
+            return (None, 'the format() call was not found in the flow graph')
+        n = stmts[0]
+        call = [x for x in ast.walk(n.ast) if method_call(x, 'format') and not isinstance(x.func.value, ast.Constant)][0]
+        if call.keywords or len(call.args) != 1 or not isinstance(call.args[0], ast.Starred):
+            return (None, f'arguments of `{text(call)[:60]}` are not one starred sequence')
+        seq = call.args[0].value
+        if isinstance(seq, ast.Name):
+            seq = f.expand(n.id, seq, depth=1, comps=True)
+        if isinstance(seq, (ast.ListComp, ast.GeneratorExp)) and len(seq.generators) == 1 and not seq.generators[0].ifs:
+            seq = seq.generators[0].iter
+        if not isinstance(seq, ast.Name):
+            return (None, f'the argument sequence `{text(seq)[:60]}` is not a local list')
+        X = seq.id
+        # where the receiver's fields come from: T = ''.join(P) (possibly re.sub()-normalised afterwards)
+        recv = call.func.value
+        P_ = None
+        seen = 0
+        cur = f.expand(n.id, recv)
+        while seen < 8 and P_ is None:
+            seen += 1
+            if method_call(cur, 'join') and isinstance(cur.func.value, ast.Constant) and len(cur.args) == 1 and isinstance(cur.args[0], ast.Name):
+                P_ = cur.args[0].id
+            elif is_call(cur, 're.sub') and len(cur.args) >= 3:
+                cur = cur.args[2]
+            else:
+                break
+        if P_ is None:
+            return (None, f'the receiver `{text(recv)}` is not a join of a list of pieces: `{text(cur)[:60]}`')
+        appends = f.nodes_with(lambda x: method_call(x, 'append') and text(x.func.value) == P_ and len(x.args) == 1)
+        others = [m for m in f.cfg.nodes if m.ast is not None and m.kind == 'stmt' and m not in appends and m.id != n.id
+                  and any(isinstance(x, ast.Name) and x.id == P_ and isinstance(x.ctx, (ast.Store, ast.Del)) for x in ast.walk(m.ast))
+                  and not (isinstance(m.ast, (ast.Assign, ast.AnnAssign)) and isinstance(m.ast.value, ast.List) and not m.ast.value.elts)]
+        ph = [a for a in appends if any(method_call(x, 'append') and is_const(x.args[0], '{}') for x in ast.walk(a.ast))]
+        tx = [a for a in appends if a not in ph]
+        if others or not ph:
+            return (None, f'`{P_}` is not built by append() of text and `{{}}` pieces only')
+        in_loop = lambda a: bool(a.loops)
+        # the counting expressions this rule can read
+        def counts_fields(e: ast.AST, at: int) -> Optional[str]:
+            e = f.expand(at, e, stop=(P_, X))
+            if method_call(e, 'count') and text(e.func.value) == P_ and len(e.args) == 1 and is_const(e.args[0], '{}'):
+                return f"{P_}.count('{{}}') (text pieces are brace-escaped: none equals '{{}}')"
+            if isinstance(e, ast.BinOp) and isinstance(e.op, ast.FloorDiv) and is_const(e.right, 2) and is_call(e.left, 'len') and text(e.left.args[0]) == P_:
+                # alternating text / field pieces plus one trailing text piece
+                lp = [a for a in ph + tx if in_loop(a)]
+                out_tx = [a for a in tx if not in_loop(a)]
+                same_guards = len({tuple(sorted(f.guards_of(a.id))) for a in lp}) == 1
+                if all(in_loop(a) for a in ph) and len([a for a in lp if a in tx]) == len(ph) and same_guards and len(out_tx) == 1:
+                    return f'len({P_}) // 2 (one text piece per field in the loop, one trailing text piece)'
+                return None
+            if isinstance(e, ast.Name):
+                incs = [m for m in f.cfg.nodes if m.ast is not None and isinstance(m.ast, ast.AugAssign) and text(m.ast.target) == e.id]
+                inits = [m for m in f.assigns_to(e.id) if m not in incs]
+                if incs and len(incs) == len(ph) and all(isinstance(m.ast.op, ast.Add) and is_const(m.ast.value, 1) for m in incs) \
+                        and len(inits) == 1 and is_const(inits[0].ast.value, 0) \
+                        and {tuple(sorted(f.guards_of(m.id))) for m in incs} == {tuple(sorted(f.guards_of(a.id))) for a in ph}:
+                    return f'`{e.id}` counts the appended fields'
+            return None
+
+        related = []
+        for (a, truth, tn) in f.guard_atoms(n.id):
+            if isinstance(a, ast.Compare) and len(a.ops) == 1 and isinstance(a.ops[0], ast.Eq):
+                sides = [a.left, a.comparators[0]]
+                for i in (0, 1):
+                    me, other = f.expand(tn.id, sides[i], stop=(X,)), sides[1 - i]
+                    if is_call(me, 'len') and len(me.args) == 1 and text(me.args[0]) == X:
+                        related.append((a, truth, tn, other))
+        if not related:
+            vals = f.lf.values_reaching(n.id, X)
+            origin = vals[0][1] if len(vals) == 1 and vals[0][1] is not None else ast.Name(id=X, ctx=ast.Load())
+            if isinstance(origin, ast.Call) and not any(isinstance(x, ast.Name) and x.id == P_ for x in ast.walk(origin)):
+                return (False, f'`{text(recv)}` has one `{{}}` per term of the whole statement (pieces `{P_}`), the arguments are one per element of '
+                               f'`{X} = {text(origin)[:50]}` (a separate tokenisation), and no guard before the call relates the two counts')
+            return (None, f'no guard relates len({X}) to the fields of `{text(recv)}` and the origin of `{X}` is not recognised')
+        for (a, truth, tn, other) in related:
+            why = counts_fields(other, tn.id)
+            if why and truth:
+                return (True, f'`{text(a)}` holds at the call and {why}')
+        return (None, f'a guard on len({X}) precedes the call but its other side is not a field count this rule can read: '
+                      f'`{text(related[0][0])}` is {related[0][1]}')
 
     return [
         (lambda s: s.kind == 'assert' and s.func.endswith('process_term_match') and s.key.startswith('assert len(') and s.key.endswith(') == 1'),
@@ -429,6 +516,9 @@ def r3_escape(R) -> None:
             if pred(s):
                 matched = True
                 ok, detail = fact(s)
+                if ok is None:
+                    R.inconclusive(construct, f'{s.exc} from `{s.key[:60]}` ({s.kind}): {detail}')
+                    break
                 R.check(ok, construct, f'escape:{s.exc}:{s.kind}:{s.key[:60]}',
                         f'{s.exc} from {s.kind} cannot occur: {reason} [{detail}]',
                         f'{s.exc} may escape parse_model from `{s.key[:70]}` ({s.kind}): the supporting fact "{reason}" does not hold: {detail}',
